@@ -55,6 +55,17 @@ template <class T> T decode_typed(int f, const Bytes& b) {
         case F_UBJSON: return jsoncons::ubjson::decode_ubjson<T>(b); default: return jsoncons::bson::decode_bson<T>(b); }
 }
 
+// arrays whose elements are all integers 0..255 (and not empty) become byte strings
+inline json bytesify(const json& j, bool& changed) {
+    if (j.is_array()) {
+        bool all = !j.empty(); for (const auto& e : j.array_range()) if (!(e.is_uint64() && e.as<uint64_t>() <= 255) && !(e.is_int64() && e.as<int64_t>() >= 0 && e.as<int64_t>() <= 255)) all = false;
+        if (all) { std::vector<uint8_t> b; for (const auto& e : j.array_range()) b.push_back((uint8_t)e.as<uint64_t>()); changed = true; return json(jsoncons::byte_string_arg, b); }
+        json a(jsoncons::json_array_arg); for (const auto& e : j.array_range()) a.push_back(bytesify(e, changed)); return a;
+    }
+    if (j.is_object()) { json o(jsoncons::json_object_arg); for (const auto& kv : j.object_range()) o.try_emplace(kv.key(), bytesify(kv.value(), changed)); return o; }
+    return j;
+}
+
 // (1) inverse and (2) route independence for one value
 template <class T>
 void check_value(const std::string& tname, size_t vi, const T& t, bool object_rooted) {
@@ -87,6 +98,23 @@ void check_value(const std::string& tname, size_t vi, const T& t, bool object_ro
             } catch (const std::exception& e) { out().viol(sig + "|route", what + "route comparison threw " + e.what()); continue; }
         }
         ++cnt().nontrivial;
+    }
+    // (2b) the same value in the other representation a format offers for it: arrays of small unsigned integers written as
+    // byte strings.  Whatever as<T>() makes of it through the basic_json route, the streaming route must make of it too.
+    if (have_json) {
+        bool changed = false; json alt = bytesify(viajson, changed);
+        if (changed) for (int f : {F_CBOR, F_MSGPACK, F_BSON}) {
+            if (f == F_BSON && !alt.is_object()) continue;
+            std::string sig = "TY|" + tname + "|" + std::to_string(vi) + "|" + fmt_name(f) + "|bytes";
+            ++cnt().eval;
+            Bytes enc; try { enc = encode_typed(f, alt); } catch (const std::exception&) { continue; }
+            bool s_ok = false, d_ok = false; std::string s_err, d_err; std::unique_ptr<T> sv, dv;
+            try { sv.reset(new T(decode_typed<T>(f, enc))); s_ok = true; } catch (const std::exception& e) { s_err = e.what(); }
+            try { sv ? (void)0 : (void)0; json j2 = decode_typed<json>(f, enc); dv.reset(new T(j2.template as<T>())); d_ok = true; } catch (const std::exception& e) { d_err = e.what(); }
+            if (s_ok != d_ok) out().viol(sig, tname + " value " + vs + " with byte strings for its byte arrays via " + fmt_name(f) + " (" + hex(enc) + ") :: streaming route " + (s_ok ? "succeeded" : "failed (" + s_err + ")") + " but basic_json route " + (d_ok ? "succeeded" : "failed (" + d_err + ")"));
+            else if (s_ok && !Eq<T>::eq(*sv, *dv)) out().viol(sig, tname + " value " + vs + " with byte strings for its byte arrays via " + fmt_name(f) + " (" + hex(enc) + ") :: streaming route gives " + show_value(*sv) + " but basic_json route gives " + show_value(*dv));
+            else ++cnt().nontrivial;
+        }
     }
     if (vi == 0) out().sample(tname + " e.g. " + vs);
 }
